@@ -691,7 +691,10 @@ class Program:
             g = expr.generators[k]
             if g.is_async:
                 raise NotConst("async comprehension")
-            for item in self.consteval(g.iter, mod, e2, cls):
+            it = self.consteval(g.iter, mod, e2, cls)
+            if isinstance(it, ClassInfo) and self.is_enum(it):
+                it = list(self.enum_members(it).values())      # iterating an Enum class yields its members in order
+            for item in it:
                 budget[0] -= 1
                 if budget[0] < 0:
                     raise NotConst("comprehension too large")
@@ -733,7 +736,7 @@ class Program:
         f = expr.func
         args = [ev(a) for a in expr.args]
         kw = {k.arg: ev(k.value) for k in expr.keywords if k.arg}
-        plain = lambda v: v.value if isinstance(v, EnumVal) else v
+        plain = lambda v: v.value if isinstance(v, EnumVal) else (list(self.enum_members(v).values()) if isinstance(v, ClassInfo) and self.is_enum(v) else v)
         args = [plain(a) for a in args]
         try:
             if isinstance(f, ast.Name) and f.id in _PURE_BUILTINS and self.lookup(mod, f.id) == ("ext", "builtins.%s" % f.id):
